@@ -48,6 +48,46 @@ claims = {
    text="Bounded-exhaustive enumeration of multi-method route sets x 4 (405, auto-OPTIONS) profiles x all requests (6 methods, 2 hosts, depth<=2 paths and '*'), issued in sequence (forward and reverse) on one router with a deterministic context pool; status, special handler identity, Allow set and the special handler's context (no route/pattern/params, scope) compared with the reference.",
    note="serves(method) from the reference matcher; OPTIONS membership in the 405 Allow header accepted either way; served requests are C08's. Bounds: K<=2 quick / 3 thorough over 84 specs.",
    technique="bounded exhaustive enumeration of (route set, option profile, request sequence) against a reference model"),
+ "C10": dict(level="exploration", design="4/C10",
+   text="Complete enumeration of all strings up to length 7 (quick) / 8 (thorough) over the 8-letter pattern alphabet x 8 limit configurations through NewRoute, compared with a reference recogniser written from the README; accepted patterns are registered and deleted on an empty router and instantiated with every value combination (routable, values reproduce the request, values equal the substituted ones when no catch-all is followed by text); arbitrary bytes for crash-freedom.",
+   note="Reference grammar trusted; gray zones abstained: '_' in host labels, '-' directly before a label parameter, host parameter names containing characters that host:port splitting treats specially.",
+   technique="bounded exhaustive enumeration of input strings against a reference recogniser"),
+ "C12": dict(level="model_checking", design="4/C12",
+   text="Every sequence up to a length of requests from a 12-kind alphabet, on routers with and without a hostname route, with optional tree replacement between requests, x EVERY answer of the context pool at every Pool.Get (data choice points of the controlled scheduler: any pooled context or a fresh one); every Context getter is checked inside every handler against the request's unique token and stashed clones are re-read after every later request; plus two-thread schedules.",
+   note=SCHED + " sync.Pool semantics (any previously Put object or a new one) is made explicit by the shim and enumerated. Bounds: sequences <=2 (all kinds) + <=3 (5 kinds) quick, <=3 all kinds thorough; preemption bound 2/3.",
+   technique="stateless exploration of environment (pool) choices and thread interleavings on the implementation with a per-request token oracle"),
+ "C13": dict(level="model_checking", design="4/C13",
+   text="Configurations: every list of global middleware up to a length over scope masks (with/without DefaultOptions) x route-specific lists x Update, observed on all five handler kinds, Route.Handle and Route.HandleMiddleware for two routes. Schedules: all interleavings (unbounded) of 2-3 threads creating routes with route-specific middleware, scheduling points at the tag-guarded verifPoints inside NewRoute.",
+   note="NewRoute has no synchronisation operation; its interleavings are explored at the two hook points (before each option, before the chain is built). Finer-grained data races are left to the -race side pass.",
+   technique="exhaustive configuration enumeration + unbounded schedule exploration at tagged hook points with an expected-trace oracle"),
+ "C14": dict(level="model_checking", design="4/C14",
+   text="Every call sequence up to length 4 (quick) / 5 (thorough) over a 15-call writer alphabet x 6 underlying writer variants x underlying writers failing after j accepted bytes; after every call Status/Size/Written are compared with the ledger of the recording underlying writer (first final status forwarded, bytes accepted, at most one final header, none after body bytes, bytes in order) and variants differing only in io.ReaderFrom are compared with each other; plus all 32 capability combinations, Context helpers, Redirect for every code 0..999.",
+   note="The recording underlying writer follows net/http (1xx except 101 informational; first body byte implies 200; flush sends the header).",
+   technique="exhaustive enumeration of call sequences x fault positions against a ledger model + differential between fast and slow path"),
+ "C15": dict(level="fault_enumeration", design="4/C15",
+   text="Complete product panic value (13) x response progress (4) x panic site (5) x spelling of each credential-bearing header (26), plus Updates/View panicking after every prefix: nothing escapes ServeHTTP except ErrAbortHandler (same value), 500 iff nothing written and not a broken connection, started responses untouched, router usable afterwards (routes, requests, a write completes), diagnostic record names route/params/request line and contains no secret.",
+   note="Wrapped broken-connection errors abstained for the 500 rule. Lock release decided by the shim.",
+   technique="fault enumeration: exhaustive product of injected panics x progress x site x header spelling"),
+ "C16": dict(level="exploration", design="4/C16",
+   text="Every subset (size<=2 quick / 3 thorough) of (pattern, ignore-slash) pairs from 5 generated pools on the PRODUCTION build (no tag, no overlay); every request really served by a route handler is served in an interleaved cycle measured with testing.AllocsPerRun after warm-up; 0 allocations required; single requests re-measured to locate a culprit.",
+   note="An allocation is what the Go runtime counts; non-zero readings are re-measured 5 times (minimum reported). GC off, GOMAXPROCS 1, allocation-free handler/writer/request.",
+   technique="bounded exhaustive enumeration of (route set, request cycle) with a measuring oracle"),
+ "C17": dict(level="exploration", design="4/C17",
+   text="Complete enumeration of all strings up to length 10 (quick) / 12 (thorough) over {'/', '.', 'a', '%', 'e-acute'} plus core strings embedded in paddings crossing the 128-byte stack buffer, compared with a split-and-stack reference, idempotence, crash-freedom; plus every short path served by redirecting routers (a 301 implies a clean path).",
+   note="Reference CleanPath written from the statement.",
+   technique="bounded exhaustive enumeration of input strings against a reference implementation"),
+ "C18": dict(level="exploration", design="4/C18",
+   text="Every header list up to 3 (quick) / 4 (thorough) entries over a 16-token alphabet, as X-Forwarded-For and Forwarded (5 shapes), over one or two lines, x 38 resolver configurations, compared with reference strategies over net/netip; every selecting list re-run behind 17 attacker prefixes (same line and extra line); SingleIPHeader, RemoteAddr, Chain; default-range audit exhaustive by elementary intervals against the IANA special-purpose registries.",
+   note="Built-in tables read through a tag-guarded hook for exact interval boundaries; anycast exceptions inside reserved blocks not counted against the tables.",
+   technique="bounded exhaustive enumeration of header lists against reference strategies + exact interval analysis of CIDR tables"),
+ "C19": dict(level="exploration", design="4/C19",
+   text="Every sequence of <=2 global options x every sequence of <=2 (quick) / 3 (thorough) route options (repeated, contradictory, nil, 12 annotation key kinds) x {NewRoute, Handle, Update} compared with a left-fold model (accessors, annotations, errors, never a panic); Context.ClientIP read in all handler kinds over all request pairs and triples on one router with a deterministic context pool.",
+   note="Annotation key validity = dynamic comparability.",
+   technique="bounded exhaustive enumeration of option sequences against a fold model"),
+ "C20": dict(level="exploration", design="4/C20",
+   text="Complete product of resolver configuration x (previous request kind, request kind) x remote address, the route handler sweeping every status 100..999, implicit 200, nothing, redirects with/without Location and panic; each request served with and without the Logger (differential) and the single captured record compared with a record model (status, method/host/path, message per the three-way rule, level, location, emitted after the handler).",
+   note="Level judged for 200..599 only; for an unparsable remote address only count/status/level are demanded.",
+   technique="exhaustive product enumeration against a record model + differential with/without the middleware"),
 }
 
 pending = "check not built yet in this round (planned: bounded exhaustive exploration, see DESIGN.md section 4)"
